@@ -77,13 +77,19 @@ def suite_c01(g, tier, rnd):
         if tier == 'quick':
             perms = rnd.sample(perms, 8)
         for perm in perms:
-            for lensel in range(3 if tier == 'quick' else 6):
+            for lensel in (rnd.sample(range(len(LENS)), 3) if tier == 'quick' else range(len(LENS))):
                 ls = ['new 0 2 77 0', 'tok %d %d' % (rnd.choice((0, 4, 8)), g.blob())]
                 vals = [(st[i], legal_len(st[i], rnd, prefer=LENS[(lensel + i) % len(LENS)]), g.blob()) for i in range(4)]
                 for i in perm:
                     ls.append('opt %d %d %d' % vals[i])
                 ls += ['data %d %d' % (rnd.choice((0, 5, 300)), g.blob()), 'enc']
                 g.case('C01', 'c01.option-order', ls)
+    # options added out of order whose own value length sits on an encoding boundary
+    for ln in (12, 13, 14, 268, 269, 270):
+        for l2 in (0, 13, 269):
+            g.case('C01', 'c01.out-of-order-boundary', ['new 0 2 3 0', 'tok 1 %d' % g.blob(), 'opt 2048 %d %d' % (l2, g.blob()),
+                                                       'opt 300 %d %d' % (ln, g.blob()), 'opt 11 2 %d' % g.blob(), 'opt 65000 %d %d' % (ln, g.blob()),
+                                                       'opt 2048 %d %d' % (ln, g.blob()), 'enc'])
     # big values on both sides of every encoding boundary, incl. the 16-bit length limit region
     for num in (2048, 65535, 300):
         for ln in (12, 13, 14, 268, 269, 270, 1034, 4000, 65000):
